@@ -4,7 +4,8 @@
 p="$1"; shift
 case "$p" in
   -R:*) git -C /repo show "${p#-R:}" -- . ':!*.md' > /tmp/_rev.diff && git -C /repo apply -R /tmp/_rev.diff || exit 3 ;;
-  *) git -C /repo apply "$p" || exit 3 ;;
+  *) case "$p" in /*) ;; *) p="$(pwd)/$p" ;; esac
+     git -C /repo apply "$p" || exit 3 ;;
 esac
 "$@"; rc=$?
 git -C /repo checkout -- . >/dev/null 2>&1
